@@ -186,14 +186,23 @@ func TestC20Modules(t *testing.T) {
 		}
 		var errB error
 		failIdx := -1
+		// a reference registry over the flat list only to notice when the sequence removes one output of a
+		// multi-output registration: what such a registration then means is left open (see C17), and godi's
+		// answer depends on map order, so the built providers are not compared in that case
+		refB := newRefRegistry()
 		for i, lf := range leaves {
 			switch lf.N.Leaf {
 			case "add":
 				errB = wb.Register(cb, &wb.Cfg.Regs[lf.N.Reg])
+				if errB == nil {
+					refB.add(wb.Cfg.Regs[lf.N.Reg])
+				}
 			case "remove":
 				cb.Remove(kit.RType(lf.N.T))
+				refB.remove(kit.Ident{T: lf.N.T})
 			case "removeKeyed":
 				cb.RemoveKeyed(kit.RType(lf.N.T), "a")
+				refB.remove(kit.Ident{T: lf.N.T, Key: "a"})
 			}
 			if errB != nil {
 				failIdx = i
@@ -272,7 +281,10 @@ func TestC20Modules(t *testing.T) {
 				}
 			}
 		}
-		if f == nil {
+		if refB.tainted != "" {
+			col.Label("partial-removal(providers not compared)")
+		}
+		if f == nil && refB.tainted == "" {
 			ra, rb := kit.NewRunner(wa), kit.NewRunner(wb)
 			ra.Coll, rb.Coll = ca, cb
 			oa, ob := ra.BuildExisting(), rb.BuildExisting()
